@@ -95,23 +95,152 @@ type c16In struct {
 	Entry string `json:"entry,omitempty"`
 	// "" = simchain's own FilterBlocks loop; "bitcoind" | "btcd" = the real client's FilterBlocks over loopback JSON-RPC
 	Backend string `json:"backend,omitempty"`
+	// branch: one wallet.BranchRecoveryState with window W driven as expandScopeHorizons / the block
+	// filter do: per round the derive loop (child indexes in Invalid fail with ErrInvalidChild), then
+	// ReportFound(Found[round]) unless it is -1
+	Invalid []uint32 `json:"invalid,omitempty"`
+	Found   []int64  `json:"found,omitempty"`
+}
+
+// c16BrsOp is one call on the real BranchRecoveryState with what it returned
+// and what the state says afterwards.
+type c16BrsOp struct {
+	Op   int    `json:"op"` // 0 ExtendHorizon, 1 AddAddr, 2 ReportFound, 3 MarkInvalidChild
+	Arg  uint32 `json:"arg"`
+	R1   uint32 `json:"r1"`
+	R2   uint32 `json:"r2"`
+	Next uint32 `json:"next"`  // NextUnfound()
+	NInv uint32 `json:"ninv"`  // NumInvalidInHorizon()
+	NAdr int    `json:"naddr"` // len(Addrs())
 }
 
 type c16Obs struct {
-	Err       string     `json:"err"`
-	BatchSize int        `json:"batch_size"`
-	InitZero  bool       `json:"init_zero"` // all key counts 0 before recovery
-	BdayUsed  int32      `json:"bday_used"` // birthday block height handed to recovery
-	Next      []uint32   `json:"next"`      // external, internal key count per scope (8 values)
-	Probes    [][5]int64 `json:"probes"`    // scope, branch, index, present, used
-	Recorded  []int32    `json:"recorded"`  // per transaction of the case (in order): block height of its record, -1 = not recorded
-	Balance   int64      `json:"balance"`
-	Unspent   [][3]int64 `json:"unspent"` // (tx id, position, value), sorted
-	Synced    int32      `json:"synced"`
-	FilterCalls int      `json:"filter_calls"` // FilterBlocks requests made by the wallet
+	Err         string     `json:"err"`
+	BatchSize   int        `json:"batch_size"`
+	InitZero    bool       `json:"init_zero"` // all key counts 0 before recovery
+	BdayUsed    int32      `json:"bday_used"` // birthday block height handed to recovery
+	Next        []uint32   `json:"next"`      // external, internal key count per scope (8 values)
+	Probes      [][5]int64 `json:"probes"`    // scope, branch, index, present, used
+	Recorded    []int32    `json:"recorded"`  // per transaction of the case (in order): block height of its record, -1 = not recorded
+	Balance     int64      `json:"balance"`
+	Unspent     [][3]int64 `json:"unspent"` // (tx id, position, value), sorted
+	Synced      int32      `json:"synced"`
+	FilterCalls int        `json:"filter_calls"` // FilterBlocks requests made by the wallet
 	// birthday
 	Height    int32 `json:"height"`
 	SearchFor int64 `json:"search_for"` // the timestamp handed to the search
+	// branch
+	Brs []c16BrsOp `json:"brs,omitempty"`
+}
+
+// c16Branch drives one real BranchRecoveryState the way the wallet does and
+// judges the look-ahead after every derive loop: at least W VALID child
+// indexes at or above NextUnfound() have an address.
+func c16Branch(in c16In) (c16Obs, []string, []string) {
+	obs := c16Obs{Next: []uint32{}, Probes: [][5]int64{}, Recorded: []int32{}, Unspent: [][3]int64{}}
+	brs := wallet.NewBranchRecoveryState(in.W)
+	invalid := map[uint32]bool{}
+	for _, i := range in.Invalid {
+		invalid[i] = true
+	}
+	rec := func(op int, arg, r1, r2 uint32) {
+		obs.Brs = append(obs.Brs, c16BrsOp{Op: op, Arg: arg, R1: r1, R2: r2, Next: brs.NextUnfound(),
+			NInv: brs.NumInvalidInHorizon(), NAdr: len(brs.Addrs())})
+	}
+	bad := map[string]bool{}
+	tags := map[string]bool{"branch_state": true}
+	for _, f := range in.Found {
+		horizon, window := brs.ExtendHorizon()
+		rec(0, 0, horizon, window)
+		count, child := uint32(0), horizon
+		for count < window {
+			if invalid[child] {
+				brs.MarkInvalidChild(child)
+				rec(3, child, 0, 0)
+				tags["invalid_child"] = true
+				if child == brs.NextUnfound() {
+					tags["invalid_child_at_next_unfound"] = true
+				}
+				child++
+				continue
+			}
+			brs.AddAddr(child, nil)
+			rec(1, child, 0, 0)
+			child++
+			count++
+		}
+		// the property's look-ahead: W valid addresses from NextUnfound() on
+		valid := uint32(0)
+		for idx := range brs.Addrs() {
+			if idx >= brs.NextUnfound() && !invalid[idx] {
+				valid++
+			}
+		}
+		if valid < in.W {
+			bad["lookahead_holds_fewer_than_window_valid_addresses"] = true
+		}
+		if f >= 0 {
+			brs.ReportFound(uint32(f))
+			rec(2, uint32(f), 0, 0)
+		}
+	}
+	var bl, tl []string
+	for k := range bad {
+		bl = append(bl, k)
+	}
+	for k := range tags {
+		tl = append(tl, k)
+	}
+	sort.Strings(bl)
+	sort.Strings(tl)
+	return obs, bl, tl
+}
+
+func c16GenBranch(r *gen.R) c16In {
+	in := c16In{Kind: "branch", Blocks: []c16Block{}, Cuts: []int32{}}
+	in.W = []uint32{1, 2, 3, 5, 20}[r.Intn(5)]
+	rounds := r.Range(2, 10)
+	// which child indexes are invalid: sparse, clustered or at chosen places
+	dens := []int{0, 8, 4, 2}[r.Intn(4)]
+	next := uint32(0)
+	for i := 0; i < rounds; i++ {
+		// the index found this round: a valid index inside the current look-ahead
+		// (the block filter can only match an address that was derived)
+		f := int64(-1)
+		if r.Intn(5) != 0 {
+			f = int64(next) + int64(r.Intn(int(in.W)))
+		}
+		in.Found = append(in.Found, f)
+		if f >= int64(next) {
+			next = uint32(f) + 1
+		}
+		// invalid children near the new nextUnfound (incl. exactly at it)
+		if dens > 0 {
+			for d := uint32(0); d < in.W+3; d++ {
+				if r.Intn(dens) == 0 {
+					in.Invalid = append(in.Invalid, next+d)
+				}
+			}
+		}
+		if r.Intn(4) == 0 {
+			in.Invalid = append(in.Invalid, next)
+		}
+	}
+	// an index reported found must have been derivable: drop it from the invalid set
+	keep := in.Invalid[:0]
+	for _, x := range in.Invalid {
+		ok := true
+		for _, f := range in.Found {
+			if f == int64(x) {
+				ok = false
+			}
+		}
+		if ok {
+			keep = append(keep, x)
+		}
+	}
+	in.Invalid = keep
+	return in
 }
 
 type c16Case struct {
@@ -1337,6 +1466,9 @@ func main() {
 					tags = append(tags, "violation_caused_a_miss")
 				}
 				return &c16Case{In: in, Obs: obs, Oracle: oracle, Tags: tags, Site: site}, nil
+			case "branch":
+				obs, bad, t2 := c16Branch(in)
+				return &c16Case{In: in, Obs: obs, Oracle: append([]string{}, bad...), Tags: append(tags, t2...), Site: "BranchRecoveryState"}, nil
 			case "birthday":
 				obs, bad, t2, err := c16Birthday(in)
 				if err != nil {
@@ -1424,6 +1556,20 @@ func main() {
 				tags = append(tags, "birthday_via_wallet")
 			}
 			jobs = append(jobs, job{in, tags})
+		}
+		// the branch state with INVALID child indexes (no real key produces one:
+		// the derive loop is replayed on the real BranchRecoveryState with a
+		// chosen set of failing indexes); fixed witnesses first
+		for _, w := range []c16In{
+			{Kind: "branch", W: 2, Invalid: []uint32{1}, Found: []int64{0, -1}, Blocks: []c16Block{}, Cuts: []int32{}},
+			{Kind: "branch", W: 3, Invalid: []uint32{0, 1, 5}, Found: []int64{-1, 2, 4, -1}, Blocks: []c16Block{}, Cuts: []int32{}},
+			{Kind: "branch", W: 1, Invalid: []uint32{1, 2, 3}, Found: []int64{0, -1, 4, -1}, Blocks: []c16Block{}, Cuts: []int32{}},
+		} {
+			jobs = append(jobs, job{w, []string{"branch_witness"}})
+		}
+		rs := gen.New(c.Seed, 2016)
+		for i := 0; i < 2*c.N; i++ {
+			jobs = append(jobs, job{c16GenBranch(rs), nil})
 		}
 		if err := runAll(jobs); err != nil {
 			return err
